@@ -27,11 +27,21 @@ func TestVfRaceStress(t *testing.T) {
 			defer wg.Done()
 			for k := 0; k < 30; k++ {
 				id := &spb.Uint128{High: 1, Low: uint64(10*k + i + 1)}
+				nh, g := uint64(100+i), uint64(200+i)
+				pfx := []string{"10.0.0.1/32", "10.0.0.2/32", "10.0.0.3/32", "10.0.0.4/32"}[i]
+				del := func(o *spb.AFTOperation, id uint64) *spb.AFTOperation {
+					o.Id, o.Op = id, spb.AFTOperation_DELETE
+					return o
+				}
 				st := &vfModStream{msgs: []*spb.ModifyRequest{
 					vfParamsMsg(),
 					{ElectionId: id},
-					{Operation: []*spb.AFTOperation{vfNHOp(1, DefaultNetworkInstanceName, uint64(100+i), id)}},
-					{Operation: []*spb.AFTOperation{vfNHGOp(2, DefaultNetworkInstanceName, uint64(200+i), uint64(100+i), id)}},
+					{Operation: []*spb.AFTOperation{vfNHOp(1, DefaultNetworkInstanceName, nh, id)}},
+					{Operation: []*spb.AFTOperation{vfNHGOp(2, DefaultNetworkInstanceName, g, nh, id)}},
+					{Operation: []*spb.AFTOperation{vfV4Op(3, DefaultNetworkInstanceName, pfx, g, id)}},
+					{Operation: []*spb.AFTOperation{del(vfV4Op(0, DefaultNetworkInstanceName, pfx, g, id), 4)}},
+					{Operation: []*spb.AFTOperation{del(vfNHGOp(0, DefaultNetworkInstanceName, g, nh, id), 5)}},
+					{Operation: []*spb.AFTOperation{del(vfNHOp(0, DefaultNetworkInstanceName, nh, id), 6)}},
 				}}
 				s.Modify(st)
 			}
